@@ -38,6 +38,7 @@ def run(cx, chk):
     chk.rule("C10.R6", "purge empties every retained list of the cache")
     chk.rule("C10.R7", "'estimated frequency is strictly lower': TinyLFU::lt(a, b) returns estimate(a) < estimate(b) on every path (engine of C11.R4), "
                        "and the bound the demotion guard reads (protected_cap) is the protected segment's own bound in constructors, clones and builders")
+    chk.rule("C10.R8", "get / get_mut re-link the entry they hit, in the window and in both main segments")
     from . import c11
     from .lib.report import Relabel
     for cfg, F in cx.cfgs():
@@ -49,6 +50,7 @@ def run(cx, chk):
         composite.policy_hygiene(cx, chk, cfg, F, "WTinyLFUCache", "C10.R5", "C10.R6")
         put(cx, chk, cfg, F)
         recording(cx, chk, cfg, F)
+        use_refresh(cx, chk, cfg, F)
         ctor(cx, chk, cfg, F)
 
 
@@ -284,6 +286,33 @@ def accessor_bounds(cx, chk, cfg, F):
                 chk.ob("C10.R7", "%s:%s" % (cfg, f["q"]), "returns the %s bound" % seg)
             else:
                 chk.violation("C10.R7", "%s|bound" % f["q"], "%s returns %s, not the bound of the %s segment" % (f["q"], fmt_val(rv)[:60], seg), f["span"]["file"], f["span"]["lo"], f["q"], None, cfg)
+
+
+def use_refresh(cx, chk, cfg, F):
+    """C10.R8: get / get_mut are use operations in whichever list the key is found: the hit node is re-linked (refreshed in the window,
+    refreshed or promoted in the main cache).  A `peek` in their place leaves the entry where it was, and the window then pushes out the
+    entry that was just used: the wrong candidate meets the filter."""
+    from .lib import ntrun
+    from .lib.routing import View
+    for name in ("get", "get_mut"):
+        f = composite.cache_method(F, ADT, name)
+        hits = {}
+        ok = True
+        for f_, p, w in ntrun.walk(cx, cfg, only=lambda g: g["path"] == f["path"]):
+            v = View(p, w)
+            for L, n in v.key_hits.items():
+                hits[L] = hits.get(L, 0) + 1
+                if not v.of("attach", node=n):
+                    ok = False
+                    chk.violation("C10.R8", "%s|%s|no-refresh" % (f["q"], ".".join(L)), "%s finds the key in %s and does not re-link the entry (a use operation refreshes or promotes what it hits)" % (
+                        f["q"], ".".join(L)), f["span"]["file"], f["span"]["lo"], f["q"], None, cfg)
+                    break
+            if not ok:
+                break
+        if ok:
+            if len(hits) < 3:
+                raise AnalysisError("C10.R8: %s hits only %s (window, probationary and protected expected)" % (f["q"], sorted(hits)))
+            chk.ob("C10.R8", "%s:%s" % (cfg, f["q"]), "the hit entry is re-linked in every list it can be found in", {"hit_paths": {".".join(k): n for k, n in hits.items()}})
 
 
 def recording(cx, chk, cfg, F):
